@@ -365,12 +365,35 @@ def analyse(prog):
 def _writer_rules(W, C, info):
     where = W.fi.fq
     fields = W.fields
-    C.ok(len(fields) == len(SPEC), "R-C11-a", where, "writer field count",
-         "%d write events, as in the specification" % len(fields),
-         "writer emits %d fields, the INDX0001 specification has %d: %s" % (len(fields), len(SPEC), [f.kind for f in fields]),
-         undecided=any(f.kind == "unknown" for f in fields))
-    if len(fields) != len(SPEC):
+    # integer payloads stay integers: NumPy has no integer type that holds both int64 and uint64, so joining a Python int
+    # (int64) with a uint64 array (numpy.append / concatenate / hstack / array([...])) goes through float64 and rounds
+    # every value above 2**53 - the 8-byte index word exists for exactly those values
+    for ev in W.I.events:
+        if ev.kind == "call" and ev["name"] in ("numpy.append", "numpy.concatenate", "numpy.hstack", "numpy.vstack", "numpy.stack", "numpy.r_"):
+            parts = list(ev["args"])
+            if ev["name"] != "numpy.append" and parts and parts[0].op in ("tuple", "list"):
+                parts = list(parts[0].args)
+            elif ev["name"] != "numpy.append" and parts and parts[0].op == "alloc" and parts[0] in W.I.heap:
+                parts = list(W.I.heap[parts[0]].get("elts", []))
+            ps = [q for q in W.fi.params() if q not in ("self", "cls")]
+            cname = ps[2] if len(ps) > 2 else "common"  # save(f, entries, common, dtype): the common value, whatever it is called
+            scal = [a for a in parts if a.op == "param" and a.args[0] == cname]
+            arrs = [a for a in parts if a not in scal]
+            if scal and arrs:
+                C.add("R-C10-e", VIOLATED, "%s@%d" % (where, ev.line), "the common value and the coordinates are written as integers",
+                      "%s joins the Python int `common` (int64) with the coordinate array: when that array is uint64 (8-byte index word) NumPy promotes the pair to float64, so the common value and every coordinate above 2**53 "
+                      "are rounded before they are cast back and written" % ev["name"], {"example": "entries {(2**53 + 1,): rows}: the file holds 2**53"})
+    if len(fields) > len(SPEC):
+        C.add("R-C11-a", VIOLATED, where, "writer field count", "writer emits %d write events, the INDX0001 specification has %d fields: %s - bytes that the documented layout does not have are written"
+              % (len(fields), len(SPEC), [f.kind for f in fields]), {"example": "any index: the file is longer than the documented layout"})
         return
+    if len(fields) != len(SPEC):
+        # fewer write events may still produce the documented bytes (two fields written by one call):
+        # the layout is not decided field by field then
+        C.add("R-C11-a", UNDECIDED, where, "writer field count", "writer emits %d write events, the INDX0001 specification has %d fields: %s - the field-by-field comparison does not apply"
+              % (len(fields), len(SPEC), [f.kind for f in fields]))
+        return
+    C.ok(True, "R-C11-a", where, "writer field count", "%d write events, as in the specification" % len(fields), "")
     info["writer_ok"] = True
     # positions
     f = fields
@@ -678,6 +701,21 @@ def _reader_rules(R, C, info):
     C.ok(size_val is not None, "R-C11-a", where, "reader field 2 (payload size, <Q) matches the specification", "", "")
     if size_val is None:
         return
+    # numpy.memmap in a writable mode does not reject a short file: it EXTENDS it with zeros to the requested shape
+    for ev in R.I.events:
+        if ev.kind == "call" and ev["name"] == "numpy.memmap":
+            mode = dict(ev["kwargs"]).get("mode")
+            if mode is None and len(ev["args"]) > 2:
+                mode = ev["args"][2]
+            modes = [a.args[1] for a in (tm.alts(mode) if mode is not None else []) if a.op == "const" and isinstance(a.args[1], str)]
+            if mode is None:
+                modes = ["r+"]  # numpy's default
+            wr = [x for x in modes if x in ("r+", "w+")]
+            if wr:
+                C.add("R-C12-a", VIOLATED, "%s@%d" % (where, ev.line), "the file is mapped read-only with a length check",
+                      "numpy.memmap(..., mode=%r) on a file shorter than the requested shape extends the file with zeros instead of raising: a torn file loads (zeroed or empty row ids), and is rewritten to full length on disk" % wr[0],
+                      {"example": "a file cut anywhere after byte 16, opened 'r+b'"})
+                return
     C.ok(len(mmaps) == 1, "R-C12-a", where, "exactly one mmap of the file", "", "%d mmap calls" % len(mmaps), undecided=len(mmaps) == 0)
     if len(mmaps) != 1:
         # a reader that does not map: every later read must then be length-checked some other way
